@@ -31,6 +31,7 @@ import (
 )
 
 type rec struct {
+	pubkey  []byte
 	id      []byte
 	typ     byte
 	stake   uint64
@@ -44,6 +45,7 @@ type obsv struct {
 	iterP   []rec
 	iterV   []rec
 	byAcct  map[string][]byte
+	cached  map[string][]byte // hex id -> GetPubkey(id) (absent when not cached)
 	total   uint64
 	count   int
 	bal     map[string]*big.Int
@@ -58,7 +60,7 @@ func (w *world) observe() *obsv {
 	o := &obsv{byID: map[string]*rec{}, byAcct: map[string][]byte{}, bal: map[string]*big.Int{}, escrow: new(big.Int), pending: new(big.Int), pendKey: map[uint64][]string{}}
 	for _, id := range w.ids {
 		if m := mm.GetMiner(id, w.adb); m != nil {
-			o.byID[hx.Hex(id)] = &rec{m.Id, m.Type, m.Stake, m.Status, m.ApplyHeight, m.Account}
+			o.byID[hx.Hex(id)] = &rec{m.PublicKey, m.Id, m.Type, m.Stake, m.Status, m.ApplyHeight, m.Account}
 		}
 	}
 	conv := func(kind byte) []rec {
@@ -66,7 +68,7 @@ func (w *world) observe() *obsv {
 		for _, e := range mm.VerifC20Iterate(kind, w.adb) {
 			if e.Miner != nil {
 				m := e.Miner
-				rs = append(rs, rec{m.Id, m.Type, m.Stake, m.Status, m.ApplyHeight, m.Account})
+				rs = append(rs, rec{m.PublicKey, m.Id, m.Type, m.Stake, m.Status, m.ApplyHeight, m.Account})
 			}
 		}
 		return rs
@@ -74,6 +76,12 @@ func (w *world) observe() *obsv {
 	o.iterP, o.iterV = conv(common.MinerTypeProposer), conv(common.MinerTypeValidator)
 	for _, a := range w.accts {
 		o.byAcct[hx.Hex(a)] = mm.GetMinerIdByAccount(a, w.adb)
+	}
+	o.cached = map[string][]byte{}
+	for _, id := range w.ids {
+		if v, err := mm.GetPubkey(id); err == nil {
+			o.cached[hx.Hex(id)] = v
+		}
 	}
 	t, d := mm.GetProposerTotalStakeWithDetail(w.height+1000000, w.adb)
 	o.total, o.count = t, len(d)
@@ -133,6 +141,7 @@ type monitor struct {
 	crafted  bool                // universe contains id' = Sha256^k(id)
 	blockNo  int                 // number of block ends so far in this episode
 	acctSet  map[string]int      // hex id -> block in which its account was last set (apply/chacc accepted)
+	everReg  map[string]bool     // ids with an accepted application in this PROCESS (the key cache outlives resets)
 	unreal   bool                // episode leaves the documented hypotheses: a balance >= 2^53 tokens or an account that is not 20 bytes
 	notes    map[string]*viol
 	prev     *obsv
@@ -142,14 +151,14 @@ type monitor struct {
 }
 
 func newMonitor(ip *interp) *monitor {
-	return &monitor{ip: ip, found: map[string]*viol{}, notes: map[string]*viol{}, checksBy: map[string]int{}}
+	return &monitor{ip: ip, found: map[string]*viol{}, notes: map[string]*viol{}, checksBy: map[string]int{}, everReg: map[string]bool{}}
 }
 
 // report keeps, per class key, the most telling witness: clause severity first
 // (money / stake / uniqueness before view disagreement), then the shortest history.
 func (m *monitor) report(key, desc string) {
 	sev := 1
-	if strings.Contains(desc, "controls miners") || strings.Contains(desc, "applied+added-refunded") || strings.Contains(desc, "liquid+staked") || strings.Contains(desc, "beyond the fee") {
+	if strings.Contains(desc, "controls miners") || strings.Contains(desc, "applied+added-refunded") || strings.Contains(desc, "liquid+staked") || strings.Contains(desc, "beyond the fee") || strings.Contains(desc, "a fresh application") || strings.Contains(desc, "GetPubkey") {
 		sev = 2
 	}
 	if m.unreal {
@@ -288,6 +297,9 @@ func (m *monitor) run(line string) string {
 		if t[0] == "apply" || t[0] == "chacc" {
 			m.acctSet[t[2]] = m.blockNo
 		}
+		if t[0] == "apply" {
+			m.everReg[t[2]] = true
+		}
 		switch t[0] {
 		case "apply":
 			led(t[2]).Add(led(t[2]), u(t[4]))
@@ -421,6 +433,51 @@ func (m *monitor) run(line string) string {
 			m.report(m.classify("lookup-disagree", false, true), fmt.Sprintf("after %s: iterator yields miner %s that GetMiner does not find", line, k))
 		}
 	}
+	// O7 status is a function of the stake: what a fresh application of the same stake would give
+	m.checksBy["O7"]++
+	var sumByStake uint64
+	cntByStake := 0
+	for k, r := range o.byID {
+		min := uint64(common.ValidatorStake)
+		if r.typ == common.MinerTypeProposer {
+			min = common.ProposerStake
+		}
+		want := byte(common.MinerStatusAbort)
+		if r.stake >= min {
+			want = common.MinerStatusNormal
+		}
+		if r.typ == common.MinerTypeProposer && r.stake >= min {
+			sumByStake += r.stake
+			cntByStake++
+		}
+		if r.status != want {
+			key := "status-not-function-of-stake"
+			if r.stake == min && r.status == common.MinerStatusAbort {
+				key = "reactivation-needs-more-than-minimum" // AddStake re-activates with `>`, AddMiner accepts `>=`
+			}
+			if m.crafted {
+				key = "id-hash-collision"
+			}
+			m.report(key, fmt.Sprintf("after %s: miner %s type %d has stake %d (minimum %d) and status %d; a fresh application with that stake has status %d; election total/count %d/%d, by stake %d/%d",
+				line, k, r.typ, r.stake, min, r.status, want, o.total, o.count, sumByStake, cntByStake))
+		}
+	}
+	// O8/O9 the public-key side store agrees with the registry
+	m.checksBy["O8"]++
+	for k, r := range o.byID {
+		if c, ok := o.cached[k]; !ok || !bytes.Equal(c, r.pubkey) {
+			key := "pubkey-cache-disagrees"
+			if m.crafted {
+				key = "id-hash-collision"
+			}
+			m.report(key, fmt.Sprintf("after %s: GetPubkey(%s) = %s (cached=%v) but the registry record has public key %s", line, k, hx.Hex(c), ok, hx.Hex(r.pubkey)))
+		}
+	}
+	for k, c := range o.cached {
+		if !m.everReg[k] {
+			m.report("pubkey-cached-for-unregistered-id", fmt.Sprintf("after %s: GetPubkey(%s) = %s but no application of that id was ever accepted", line, k, hx.Hex(c)))
+		}
+	}
 	if sum != o.total || cnt != o.count {
 		m.report(m.classify("totals-disagree", false, true), fmt.Sprintf("after %s: total/count %d/%d, over active records %d/%d", line, o.total, o.count, sum, cnt))
 	}
@@ -454,6 +511,8 @@ func witnesses() map[string][]string {
 		"unstake-opcode-escrows-untruncated-amount": append(pre("11"),
 			"apply "+a1+" 11 1 2500 "+a2+" 01 01", "endblock 101",
 			"vmunstake "+a1+" "+a2+" 1500000000000000000", "vmunstake "+a1+" "+a2+" 900000000000000000", "endblock 102"),
+		"reactivation-needs-more-than-minimum": append(pre("11"),
+			"apply "+a1+" 11 1 2000 - 01 01", "endblock 101", "refund "+a1+" 11 1", "endblock 102", "add "+a1+" 11 1", "endblock 103"),
 		"refund-lost-second-account": append(pre("11,22"),
 			"apply "+a1+" 11 0 800 - 01 01", "apply "+a2+" 22 0 800 - 01 01", "endblock 101",
 			"refund "+a1+" 11 100", "refund "+a2+" 22 100", "endblock 102"),
